@@ -45,6 +45,9 @@ func main() {
 		os.Exit(workerMain(os.Args[2:]))
 	}
 	id := os.Args[1]
+	if _, isCheck := checks[id]; isCheck && os.Getenv("VERIF_CHILD") == "" {
+		os.Exit(superviseCheck(os.Args[1:]))
+	}
 	c, ok := checks[id]
 	if !ok {
 		fmt.Fprintf(os.Stderr, "unknown property %q\n", id)
